@@ -83,7 +83,12 @@ func iterStream(cfg *Config) *hx.Stats {
 		iterNestedReadOnly(cfg, st, w, rng, nProg+nNested+p)
 		st.Programs++
 	}
-	iterCheckRequired(cfg, st, append(append(append([]string{}, iterRequired...), iterNestRequired...), iterLoadedRequired...))
+	// ... the same over wrapped children and over maps whose keys are containers (iternestx.go)
+	for p := 0; p < nRO && len(st.Violations) <= 20 && st.HarnessErr == ""; p++ {
+		iterNestedExotic(cfg, st, w, rng, nProg+nNested+nRO+p)
+		st.Programs++
+	}
+	iterCheckRequired(cfg, st, append(append(append(append([]string{}, iterRequired...), iterNestRequired...), iterNestXRequired...), iterLoadedRequired...))
 	st.TraceLines = w.Lines
 	st.Distinct = iterDistinct
 	atree.VerifSetThreshold(1024)
@@ -662,7 +667,12 @@ func (e *itArr) itLoadedRound(k int) {
 	ld := loadedIDs(fresh)
 	var got []hx.TV
 	bad := false
-	err = a2.IterateReadOnlyLoadedValues(collectTV(&got, &bad))
+	var pan string
+	err, pan = guardedRead(func() error { return a2.IterateReadOnlyLoadedValues(collectTV(&got, &bad)) })
+	if pan != "" {
+		e.violation("*", fmt.Sprintf("IterateReadOnlyLoadedValues PANICKED on an array with the loaded slabs %s: %s", idList(ld), pan))
+		return
+	}
 	e.w.L("IT arr h=0 kind=loaded ld=%s", idList(ld))
 	e.st.Hit(fmt.Sprintf("arr:loaded:mode%d", mode))
 	if err != nil {
@@ -729,6 +739,15 @@ func (e *itArr) itFlavours() {
 			}
 			if k := hx.ErrKind(err); k != want {
 				e.violation("C13", fmt.Sprintf("%s: invalid range [%d,%d) of %d rejected with %s, want %s", name, lo, hi, n, k, want))
+			} else {
+				// the refusal names the range that was asked for (and the bounds it violates)
+				d := hx.ErrNames(err, "InvalidSliceIndex", lo, hi)
+				if want == "SliceOutOfBounds:User" {
+					d = hx.ErrNames(err, "SliceOutOfBounds", lo, hi, 0, n)
+				}
+				if d != "" {
+					e.violation("C13", fmt.Sprintf("%s: invalid range [%d,%d) of %d: %s", name, lo, hi, n, d))
+				}
 			}
 			if len(got) != 0 {
 				e.violation("C13", fmt.Sprintf("%s: rejected range still yielded %d elements", name, len(got)))
@@ -1282,13 +1301,20 @@ func (e *itMap) itLoadedRound(k int, mk func() atree.DigesterBuilder) {
 	ld := loadedIDs(fresh)
 	var got []kvTV
 	bad := false
-	err = m2.IterateReadOnlyLoadedValues(func(k, v atree.Value) (bool, error) {
-		kt, ok1 := k.(hx.TV)
-		vt, ok2 := v.(hx.TV)
-		bad = bad || !ok1 || !ok2
-		got = append(got, kvTV{kt, vt})
-		return true, nil
+	var pan string
+	err, pan = guardedRead(func() error {
+		return m2.IterateReadOnlyLoadedValues(func(k, v atree.Value) (bool, error) {
+			kt, ok1 := k.(hx.TV)
+			vt, ok2 := v.(hx.TV)
+			bad = bad || !ok1 || !ok2
+			got = append(got, kvTV{kt, vt})
+			return true, nil
+		})
 	})
+	if pan != "" {
+		e.violation("*", fmt.Sprintf("IterateReadOnlyLoadedValues PANICKED on a map with the loaded slabs %s: %s", idList(ld), pan))
+		return
+	}
 	e.w.L("IT map h=0 kind=loaded ld=%s", idList(ld))
 	e.st.Hit(fmt.Sprintf("map:loaded:mode%d", mode))
 	if err != nil {
